@@ -63,6 +63,14 @@ const classBplistCycle = "os/macapps|fatal:bplist_reference_cycle"
 // tables, 33 KB: 10 s / 7.5 GiB).
 const classNesting = "c02.deep_nesting_quadratic"
 
+// classSPDXLines: the tag-value reader of spdx/tools-golang allocates more than linearly in the
+// number of lines (a 120 KB .spdx document of 30 000 short lines: more than 1 GiB within a
+// second; 10 000 lines stay within the budget). While the class is known, tag-value inputs
+// of sbom/spdx keep at most maxSPDXLinesKnown lines.
+const classSPDXLines = "c02.spdx_tagvalue_lines_superlinear"
+
+const maxSPDXLinesKnown = 5000
+
 // classMacOverrun: groob/plist trusts the element counts of binary-plist strings / data / arrays
 // (make([]uint16, count) ...): a 1.2 KB Info.plist allocates tens of GiB and runs for minutes.
 const classMacOverrun = "os/macapps|overrun:bplist_counts"
@@ -450,6 +458,12 @@ func genC02(t *rapid.T) c02Case {
 		// repeated on one line): decided on the document itself
 		if data, err := c.input(); err == nil && bracketDepth(data) > maxNestKnown {
 			col.Excluded(classNesting)
+			c.Muts = nil
+		}
+	}
+	if e.Name == "sbom/spdx" && strings.HasSuffix(strings.ToLower(c.Path), ".spdx") && col.IsKnown(classSPDXLines) {
+		if data, err := c.input(); err == nil && bytes.Count(data, []byte("\n")) > maxSPDXLinesKnown {
+			col.Excluded(classSPDXLines)
 			c.Muts = nil
 		}
 	}
